@@ -69,7 +69,7 @@ def rules(t):
         if not g.fn.path.endswith(("::process_message_ack", "::process_slice_message_ack")): r.bad(f"{g.fn.path}|shrink", g, f"{short(g.fn.path)} removes unacked messages")
     for c in list(t.calls(r"SendChannelReliable::process_message_ack$")) + list(t.calls(r"SendChannelReliable::process_slice_message_ack$")):
         r.site(c)
-        if not c.fn.path.endswith("RenetClient::process_packet"): r.bad(f"{c.fn.path}|caller", c, f"ack handler called from {short(c.fn.path)}")
+        if not owner_fn(t, c.fn).path.endswith("RenetClient::process_packet"): r.bad(f"{owner_fn(t, c.fn).path}|caller", c, f"ack handler called from {short(owner_fn(t, c.fn).path)}")
     out.append(r)
     gp = t.fn("SendChannelReliable::get_packets_to_send")
     r = RuleResult("C01.f", "the retransmission loop visits every unacked message: its only exit is the exhausted iterator", floor=1)
